@@ -26,6 +26,15 @@ Theorem C13_positions_all_visited : forall p, is_store_target p = false ->
   reached cbo_walk_fields 0 p [] = true.
 Proof. exact expr_positions_reached. Qed.
 
+(* ... and so is a mention hidden inside another mention's call, to any nesting depth and through
+   any chain of argument slots (positional, keyword, *, **, list literal), in every such position;
+   and no visitor of cbo.go ever cuts the walk below a node it has handled *)
+Theorem C13_nested_positions_all_visited : forall p slots, is_store_target p = false ->
+  reached_at cbo_walk_fields 0 p slots [] = true.
+Proof. exact expr_positions_reached_at. Qed.
+Theorem C13_walk_never_pruned : cbo_walk_never_pruned = true.
+Proof. exact (proj2 (proj2 (proj2 code_flags))). Qed.
+
 (* model = spec, all positions, all import forms except module-qualified references *)
 Theorem C13_exact_partial : forall f c, plain_class c -> unions_flat_class c -> inst_positions_ok c ->
   cbo_deps default_options f c = cbo_spec f c.
@@ -94,9 +103,9 @@ Theorem C13_additive_base : forall o f n bs ms r,
   r_count (cbo_model o f (Class n (r :: bs) ms)) = (r_count (cbo_model o f (Class n bs ms)) + 1)%Z.
 Proof. exact cbo_additive_base. Qed.
 
-Theorem C13_additive_instantiation : forall o f n bs ms r p md,
-  reached cbo_walk_fields 0 p [] = true -> call_dep o (collect_imports f) (f_classes f) r = [r] ->
-  md_body md = [Mention (KInst r) p] -> md_params md = [] -> md_ret md = None ->
+Theorem C13_additive_instantiation : forall o f n bs ms r p sl md,
+  reached_at cbo_walk_fields 0 p sl [] = true -> call_dep o (collect_imports f) (f_classes f) r = [r] ->
+  md_body md = [MentionAt (KInst r) p sl] -> md_params md = [] -> md_ret md = None ->
   not_self (Class n bs ms) r = true -> ~ In r (cbo_deps o f (Class n bs ms)) ->
   r_count (cbo_model o f (Class n bs (MMethod md :: ms))) = (r_count (cbo_model o f (Class n bs ms)) + 1)%Z.
 Proof. exact cbo_additive_instantiation. Qed.
@@ -112,6 +121,8 @@ Theorem C13_default_thresholds : o_low default_options = 3%Z /\ o_medium default
 Proof. exact default_thresholds. Qed.
 
 Print Assumptions C13_positions_all_visited.
+Print Assumptions C13_nested_positions_all_visited.
+Print Assumptions C13_walk_never_pruned.
 Print Assumptions C13_exact_partial.
 Print Assumptions C13_qualified_refuted.
 Print Assumptions C13_generic_in_union_refuted.
